@@ -656,7 +656,14 @@ impl<T: AsRef<[u8]>> Frame<T> {
         } else {
             0
         };
-        &b[5..][..length]
+        // The key identifier follows the security control octet and, unless it is
+        // suppressed, the 4-octet frame counter.
+        let offset = if self.frame_counter_suppressed() {
+            1
+        } else {
+            5
+        };
+        &b[offset..][..length]
     }
 
     /// Return the Key Source field.
@@ -687,7 +694,13 @@ impl<T: AsRef<[u8]>> Frame<T> {
         let data = &self.buffer.as_ref();
         let len = data.len();
 
-        Some(&data[len - mic_len..])
+        // The MIC follows the MAC header: a frame too short to hold it has none.
+        let start = len.checked_sub(mic_len)?;
+        if start < self.payload_start() {
+            return None;
+        }
+
+        Some(&data[start..])
     }
 
     /// Return the MAC header.
